@@ -245,6 +245,20 @@ def accept_path(sk: int, c: int, h1: int, h2: int) -> bool:
     return V(_accepted(p, t, loop, spy, "h", 1965, exp, ""))
 
 
+def accept_path2(sk: int, c: int, d: int, h1: int) -> bool:
+    """
+    pre: 0 <= sk < 3
+    pre: is_pchar(c) and is_pchar(d) and is_hex(h1)
+    post: _
+    """
+    spy = Spy()
+    p, t, loop = make(spy)
+    c, d = chr(c), chr(d)
+    path = ["/" + c + d, "/d" + c + "/" + d + "f", "/%4" + chr(h1) + c + "/" + d][sk]
+    p._handle_gemini_request("gemini://h" + path + "?k=v")
+    return V(_accepted(p, t, loop, spy, "h", 1965, path, "k=v"))
+
+
 def accept_query(sk: int, c: int, d: int) -> bool:
     """
     pre: 0 <= sk < 3
@@ -430,6 +444,8 @@ OBLIGATIONS += [
     Ob("accept_path", accept_path, quick=150, thorough=600,
        symbolic="1 pchar (any unreserved / sub-delim / ':' '@' code point) + 2 hex digits of a pct-encoded triple", enum="5 path shapes",
        functions=["_handle_gemini_request", "parse_url"]),
+    Ob("accept_path2", accept_path2, quick=600, thorough=1500, tiers=("thorough",),
+       symbolic="2 path characters (any pchar code point) + 1 hex digit, 3 path shapes, with a query", functions=["_handle_gemini_request", "parse_url"]),
     Ob("accept_query", accept_query, quick=150, thorough=600,
        symbolic="2 query characters (pchar | '/' | '?')", enum="3 query shapes",
        functions=["_handle_gemini_request", "parse_url"]),
